@@ -440,6 +440,21 @@ func runC08(c *explore.Ctx) {
 	// three inputs: the term enumerator's tie handling (two inputs on the same term while a third
 	// is on a smaller one) cannot show with two
 	mergeSweepDict(c, 3, 4, 1, mergeCfgsQuick[:1], check)
+	zooEach(c, false, func(idx int64, z *zooSeg) {
+		fs := append([]string{}, z.want.Fields...)
+		if len(fs) > 6 {
+			fs = append(fs[:3], fs[len(fs)-3:]...)
+		}
+		mark := len(c.R.Violations)
+		sub := int64(0)
+		for _, f := range append(fs, "nosuch") {
+			if len(z.want.Terms(f)) > 400 {
+				continue // thousands of terms x ranges x automata: the dictionary itself is compared by every observation
+			}
+			checkDict(c, "ZOO", &sub, z.seg, z.want, f, oneHitTerms(z.want, f), rsSmall, asSmall, z.name)
+		}
+		zooRelabel(c, mark, idx, z.name)
+	})
 }
 
 // mergeSweepDict is mergeSweep whose replay addresses sub-cases "<scope>/dict" #idx*4096+k.
